@@ -339,7 +339,8 @@ Proof.
     induction n as [|n IH] using N.peano_ind; intros Hn; [reflexivity|].
     rewrite !sum_below_succ, IH by lia. rewrite W, draw64_k_of_shift by lia. reflexivity. }
   rewrite S, weight_mean_exact, E. rewrite N2Z.inj_mul, mult_IZR. change (Z.of_N 2) with 2%Z.
-  replace (bpow radix2 53) with (2 * bpow radix2 52) by (change 53%Z with (1 + 52)%Z; rewrite bpow_plus; reflexivity).
+  assert (B53 : bpow radix2 53 = bpow radix2 1 * bpow radix2 52) by (rewrite <- bpow_plus; reflexivity).
   assert (B : bpow radix2 52 * bpow radix2 (-52) = 1) by (rewrite <- bpow_plus; reflexivity).
+  rewrite B53. set (b1 := bpow radix2 1). assert (B1 : b1 = 2) by reflexivity. rewrite B1.
   transitivity (2 * IZR (Z.of_N I) * (bpow radix2 52 * bpow radix2 (-52))); [rewrite B; ring | ring].
 Qed.
